@@ -380,6 +380,31 @@ func Combs() []Comb {
 				return &runsHeads{outer: stream.Runs[int](s[0], p.same)}
 			},
 		},
+		{Name: "RunsStale", UsesKey: true, // like Runs, but the consumer keeps every run's handle and polls all earlier ones before
+			// reading a new run: a run that is over stays over (whatever it yields is added to the output)
+			I: func(s []*Src, p Params) outI {
+				var old []iterator.Iterator[int]
+				return mapI[iterator.Iterator[int]]{iterator.Runs(s[0].Iter(), p.same), func(in iterator.Iterator[int]) []int {
+					out := []int{}
+					for _, h := range old {
+						if x, ok := h.Next(); ok {
+							out = append(out, 1000+x) // marked: never part of a legal output
+						}
+					}
+					old = append(old, in)
+					for {
+						x, ok := in.Next()
+						if !ok {
+							return out
+						}
+						out = append(out, x)
+					}
+				}}
+			},
+			S: func(s []*Src, p Params) outS {
+				return &runsDrain{outer: stream.Runs[int](s[0], p.same), stale: true}
+			},
+		},
 		{Name: "While", UsesPred: true, HasCb: true,
 			I: func(s []*Src, p Params) outI { return scalarsI(iterator.While(s[0].Iter(), p.pred)) },
 			S: func(s []*Src, p Params) outS {
@@ -401,6 +426,8 @@ type runsDrain struct {
 	outer stream.Stream[stream.Stream[int]]
 	inner stream.Stream[int]
 	part  []int
+	stale bool // poll the handles of all earlier runs before reading a new one
+	old   []stream.Stream[int]
 }
 
 func (r *runsDrain) Next(ctx context.Context) ([]int, error) {
@@ -411,6 +438,14 @@ func (r *runsDrain) Next(ctx context.Context) ([]int, error) {
 		}
 		r.inner = in
 		r.part = []int{}
+		if r.stale {
+			for _, h := range r.old {
+				if x, err := h.Next(context.Background()); err == nil {
+					r.part = append(r.part, 1000+x) // marked: never part of a legal output
+				}
+			}
+			r.old = append(r.old, in)
+		}
 	}
 	for {
 		x, err := r.inner.Next(ctx)
